@@ -92,22 +92,38 @@ func doParseDefault(avx512 bool, in []byte, reuse *simdjson.ParsedJson, nd bool)
 
 type walkOpt struct {
 	top, arr, obj int
+	// reuseDst: every call that accepts a destination (Root, Object, Array, Object.Parse,
+	// FindKey) gets a long-lived one that was last used for an earlier document
+	reuseDst bool
 }
 
+// long-lived destinations, one per nesting depth (a nested call must not clobber its parent's)
+var (
+	dstRoots [64]simdjson.Iter
+	dstObjs  [64]simdjson.Object
+	dstArrs  [64]simdjson.Array
+	dstElems [64]*simdjson.Elements
+)
+
 func (o walkOpt) String() string {
-	return fmt.Sprintf("top=%s arr=%s obj=%s",
+	r := ""
+	if o.reuseDst {
+		r = " [destinations reused across documents]"
+	}
+	return r + fmt.Sprintf("top=%s arr=%s obj=%s",
 		[]string{"Advance+Root", "ParsedJson.ForEach"}[o.top],
 		[]string{"Array.Iter+Advance", "Array.Iter+AdvanceIter", "Array.ForEach"}[o.arr],
 		[]string{"NextElementBytes", "NextElement", "Object.Parse", "Object.ForEach"}[o.obj])
 }
 
-var walkCombos = []walkOpt{{0, 0, 0}, {0, 1, 1}, {1, 2, 3}, {0, 0, 2}}
+var walkCombos = []walkOpt{{0, 0, 0, false}, {0, 1, 1, false}, {1, 2, 3, false}, {0, 0, 2, false}, {0, 0, 0, true}, {0, 1, 2, true}}
 
 var errBudget = errors.New("walker step budget exhausted (non-terminating traversal)")
 
 type walker struct {
 	o      walkOpt
 	budget int
+	depth  int
 }
 
 func newWalker(o walkOpt, tapeLen int) *walker { return &walker{o: o, budget: 4*tapeLen + 64} }
@@ -142,7 +158,11 @@ func walkDoc(pj *simdjson.ParsedJson, o walkOpt) (docs []*ref.Node, err error) {
 			if typ != simdjson.TypeRoot {
 				return nil, fmt.Errorf("top level: expected root, got %v", typ)
 			}
-			_, inner, err := it.Root(nil)
+			var rdst *simdjson.Iter
+			if o.reuseDst {
+				rdst = &dstRoots[0]
+			}
+			_, inner, err := it.Root(rdst)
 			if err != nil {
 				return nil, fmt.Errorf("Root(): %w", err)
 			}
@@ -225,16 +245,28 @@ func (w *walker) value(it *simdjson.Iter) (*ref.Node, error) {
 		}
 		return n, nil
 	case simdjson.TypeArray:
-		arr, err := it.Array(nil)
+		var adst *simdjson.Array
+		if w.o.reuseDst && w.depth < len(dstArrs) {
+			adst = &dstArrs[w.depth]
+		}
+		arr, err := it.Array(adst)
 		if err != nil {
 			return nil, fmt.Errorf("Array(): %w", err)
 		}
+		w.depth++
+		defer func() { w.depth-- }()
 		return w.array(arr)
 	case simdjson.TypeObject:
-		obj, err := it.Object(nil)
+		var odst *simdjson.Object
+		if w.o.reuseDst && w.depth < len(dstObjs) {
+			odst = &dstObjs[w.depth]
+		}
+		obj, err := it.Object(odst)
 		if err != nil {
 			return nil, fmt.Errorf("Object(): %w", err)
 		}
+		w.depth++
+		defer func() { w.depth-- }()
 		return w.object(obj)
 	default:
 		return nil, fmt.Errorf("unexpected type %v where a value was expected", t)
@@ -345,9 +377,16 @@ func (w *walker) object(obj *simdjson.Object) (*ref.Node, error) {
 			}
 		}
 	case 2:
-		els, err := obj.Parse(nil)
+		var edst *simdjson.Elements
+		if w.o.reuseDst && w.depth < len(dstElems) {
+			edst = dstElems[w.depth]
+		}
+		els, err := obj.Parse(edst)
 		if err != nil {
 			return nil, fmt.Errorf("Object.Parse: %w", err)
+		}
+		if w.o.reuseDst && w.depth < len(dstElems) {
+			dstElems[w.depth] = els
 		}
 		for i := range els.Elements {
 			e := &els.Elements[i]
